@@ -1,141 +1,12 @@
 (* PySrcFacts.v
-   The translator tie: the functions that tools/py2coq.py generates from the CURRENT Python sources
-   (theories/PySrc.v, regenerated on every run) equal the functions of the hand-written model, through the
-   abstraction of a Python dict {variable: 0|1} as a model space.  If one of the Python functions changes, PySrc.v
-   changes and these proofs are re-checked against the new text. *)
+   The translator tie: the functions that tools/py2coq.py generates from the CURRENT Python sources of
+   space_utils.is_subspace / intersect (theories/PySrc.v, regenerated on every run) equal the functions of the
+   hand-written model, through the abstraction of a Python dict {variable: 0|1} as a model space (PySrcBase.v).
+   If one of the Python functions changes, PySrc.v changes and these proofs are re-checked against the new text. *)
 From Coq Require Import List Bool Arith NArith Lia.
 Import ListNotations.
-From BB Require Import BN SpaceFacts Names PyLib PySrc.
+From BB Require Import BN SpaceFacts Names PyLib PySrcBase PySrc.
 
-(* a dict over the variables 0..n-1: unique keys, all < n *)
-Definition wf_dict (n : nat) (d : pdict) : Prop :=
-  NoDup (map fst d) /\ forall k, In k (map fst d) -> k < n.
-(* the space it denotes *)
-Definition to_space (n : nat) (d : pdict) : space := map (fun i => d_get d i) (seq 0 n).
-
-(* ------------------------------------------------------------------ *)
-(* to_space                                                            *)
-(* ------------------------------------------------------------------ *)
-
-Lemma nth_map_seq : forall (f : nat -> option bool) n s i, i < n ->
-  nth i (map f (seq s n)) None = f (s + i).
-Proof.
-  intros f n. induction n as [|n IH]; intros s i Hi; [lia|].
-  simpl. destruct i as [|i].
-  - f_equal. lia.
-  - rewrite IH by lia. f_equal. lia.
-Qed.
-
-Theorem to_space_length : forall n d, length (to_space n d) = n.
-Proof.
-  intros n d. unfold to_space. rewrite map_length, seq_length. reflexivity.
-Qed.
-
-Theorem to_space_nth : forall n d i, i < n -> nth i (to_space n d) None = d_get d i.
-Proof.
-  intros n d i Hi. unfold to_space. rewrite nth_map_seq by exact Hi. reflexivity.
-Qed.
-
-(* ------------------------------------------------------------------ *)
-(* dict lemmas                                                         *)
-(* ------------------------------------------------------------------ *)
-
-Lemma d_get_in_key : forall d k v, d_get d k = Some v -> In k (map fst d).
-Proof.
-  induction d as [|[k0 v0] d IH]; intros k v H; simpl in *; [discriminate|].
-  destruct (Nat.eqb_spec k0 k) as [->|Hne]; [left; reflexivity|].
-  right. apply (IH k v H).
-Qed.
-
-Lemma in_key_d_get : forall d k, In k (map fst d) -> exists v, d_get d k = Some v.
-Proof.
-  induction d as [|[k0 v0] d IH]; intros k H; simpl in *; [contradiction|].
-  destruct (Nat.eqb_spec k0 k) as [->|Hne]; [exists v0; reflexivity|].
-  destruct H as [H|H]; [contradiction|]. apply (IH k H).
-Qed.
-
-Lemma d_get_notin : forall d k, ~ In k (map fst d) -> d_get d k = None.
-Proof.
-  intros d k H. destruct (d_get d k) as [v|] eqn:E; [|reflexivity].
-  exfalso. apply H. apply (d_get_in_key d k v E).
-Qed.
-
-Lemma d_get_d_set : forall d k v k',
-  d_get (d_set d k v) k' = if Nat.eqb k k' then Some v else d_get d k'.
-Proof.
-  induction d as [|[k0 v0] d IH]; intros k v k'; simpl.
-  - destruct (Nat.eqb k k'); reflexivity.
-  - destruct (Nat.eqb_spec k0 k) as [->|Hne]; simpl.
-    + destruct (Nat.eqb k k'); reflexivity.
-    + destruct (Nat.eqb_spec k0 k') as [->|Hne'].
-      * destruct (Nat.eqb_spec k k') as [->|_]; [contradiction|reflexivity].
-      * apply IH.
-Qed.
-
-Lemma keys_d_set : forall d k v k',
-  In k' (map fst (d_set d k v)) <-> k' = k \/ In k' (map fst d).
-Proof.
-  induction d as [|[k0 v0] d IH]; intros k v k'; simpl.
-  - split; [intros [H|[]]; left; congruence | intros [H|[]]; left; congruence].
-  - destruct (Nat.eqb_spec k0 k) as [->|Hne]; simpl.
-    + split; [intros [H|H]; [left; congruence | right; right; exact H]
-             | intros [H|[H|H]]; [left; congruence | left; exact H | right; exact H]].
-    + rewrite IH. split.
-      * intros [H|[H|H]]; [right; left; exact H | left; exact H | right; right; exact H].
-      * intros [H|[H|H]]; [right; left; exact H | left; exact H | right; right; exact H].
-Qed.
-
-Lemma NoDup_d_set : forall d k v, NoDup (map fst d) -> NoDup (map fst (d_set d k v)).
-Proof.
-  induction d as [|[k0 v0] d IH]; intros k v H; simpl.
-  - constructor; [intros []|constructor].
-  - simpl in H. inversion H as [|? ? Hnin Hnd]; subst.
-    destruct (Nat.eqb_spec k0 k) as [->|Hne]; simpl.
-    + constructor; assumption.
-    + constructor.
-      * rewrite keys_d_set. intros [Heq|Hin]; [contradiction|contradiction].
-      * apply IH. exact Hnd.
-Qed.
-
-Lemma wf_d_set : forall n d k v, wf_dict n d -> k < n -> wf_dict n (d_set d k v).
-Proof.
-  intros n d k v [Hnd Hlt] Hk. split.
-  - apply NoDup_d_set. exact Hnd.
-  - intros k' Hin. apply keys_d_set in Hin. destruct Hin as [->|Hin]; [exact Hk|].
-    apply Hlt. exact Hin.
-Qed.
-
-Lemma d_set_fresh : forall d k v, ~ In k (map fst d) -> d_set d k v = d ++ [(k, v)].
-Proof.
-  induction d as [|[k0 v0] d IH]; intros k v H; simpl in *; [reflexivity|].
-  destruct (Nat.eqb_spec k0 k) as [->|Hne].
-  - exfalso. apply H. left. reflexivity.
-  - f_equal. apply IH. intro Hin. apply H. right. exact Hin.
-Qed.
-
-Lemma to_space_nth_all : forall n d i, wf_dict n d -> nth i (to_space n d) None = d_get d i.
-Proof.
-  intros n d i [_ Hlt]. destruct (lt_dec i n) as [Hi|Hi].
-  - apply to_space_nth. exact Hi.
-  - rewrite nth_overflow by (rewrite to_space_length; lia).
-    symmetry. apply d_get_notin. intro Hin. apply Hlt in Hin. lia.
-Qed.
-
-(* ------------------------------------------------------------------ *)
-(* space_utils.is_subspace                                             *)
-(* ------------------------------------------------------------------ *)
-
-Lemma py_for_check : forall (K R S : Type) (body : K -> S -> flow R S) (s : S) (r : R)
-  (P : K -> bool) (ks : list K),
-  (forall k, In k ks -> body k s = if P k then FNext s else FRet r) ->
-  py_for ks body s = if forallb P ks then FNext s else FRet r.
-Proof.
-  intros K R S body s r P ks. induction ks as [|k ks IH]; intros Hb; simpl.
-  - reflexivity.
-  - rewrite (Hb k (or_introl eq_refl)).
-    destruct (P k); simpl; [|reflexivity].
-    apply IH. intros k' Hin. apply Hb. right. exact Hin.
-Qed.
 
 Theorem py_is_subspace_spec : forall n x y, wf_dict n x -> wf_dict n y ->
   py_is_subspace x y = Some (subspace (to_space n x) (to_space n y)).
@@ -328,188 +199,5 @@ Proof.
     rewrite (Hcompat i a b Ea Eb). reflexivity.
 Qed.
 
-(* ------------------------------------------------------------------ *)
-(* space_utils.space_unique_key                                        *)
-(* ------------------------------------------------------------------ *)
-
-Definition key_field (k : nat) (v : bool) : N :=
-  N.shiftl (N.add (N.b2n v) 2) (N.mul 2 (N.of_nat k)).
-
-Fixpoint dkey (d : pdict) : N :=
-  match d with
-  | [] => 0%N
-  | (k, v) :: r => N.lor (key_field k v) (dkey r)
-  end.
-
-Lemma key_loop_ok : forall n (body : nat * bool -> N * option nat -> flow N (N * option nat)),
-  (forall k v key var, body (k, v) (key, var) =
-     if Nat.ltb k n then FNext (N.lor key (key_field k v), Some k) else FRaise) ->
-  forall items key var, (forall k, In k (map fst items) -> k < n) ->
-  exists var', py_for items body (key, var) = FNext (N.lor key (dkey items), var').
-Proof.
-  intros n body Hb. induction items as [|[k v] items IH]; intros key var Hlt; simpl.
-  - exists var. rewrite N.lor_0_r. reflexivity.
-  - rewrite Hb.
-    assert (Hk : k < n) by (apply Hlt; left; reflexivity).
-    apply Nat.ltb_lt in Hk. rewrite Hk.
-    destruct (IH (N.lor key (key_field k v)) (Some k)) as [var' Hv].
-    { intros k' Hin. apply Hlt. right. exact Hin. }
-    exists var'. rewrite Hv. rewrite N.lor_assoc. reflexivity.
-Qed.
-
-Lemma key_loop_raise : forall n (body : nat * bool -> N * option nat -> flow N (N * option nat)),
-  (forall k v key var, body (k, v) (key, var) =
-     if Nat.ltb k n then FNext (N.lor key (key_field k v), Some k) else FRaise) ->
-  forall items key var, (exists k, In k (map fst items) /\ n <= k) ->
-  py_for items body (key, var) = FRaise.
-Proof.
-  intros n body Hb. induction items as [|[k v] items IH]; intros key var [k' [Hin Hle]]; simpl.
-  - destruct Hin.
-  - rewrite Hb. destruct (Nat.ltb_spec k n) as [Hk|Hk]; [|reflexivity].
-    apply IH. simpl in Hin. destruct Hin as [->|Hin]; [lia|].
-    exists k'. split; [exact Hin|exact Hle].
-Qed.
-
-Lemma key_field_code : forall k v,
-  key_field k v = N.shiftl (ob_code (Some v)) (2 * N.of_nat k).
-Proof. intros k [|]; reflexivity. Qed.
-
-Lemma key_field_bit : forall k v i j, (j < 2)%N ->
-  N.testbit (key_field k v) (2 * N.of_nat i + j) =
-  if Nat.eqb k i then N.testbit (ob_code (Some v)) j else false.
-Proof.
-  intros k v i j Hj. rewrite key_field_code.
-  destruct (Nat.eqb_spec k i) as [->|Hne].
-  - rewrite N.shiftl_spec_high' by lia. f_equal. lia.
-  - destruct (lt_dec k i) as [Hlt|Hge].
-    + rewrite N.shiftl_spec_high' by lia.
-      replace (2 * N.of_nat i + j - 2 * N.of_nat k)%N
-        with ((2 * N.of_nat i + j - 2 * N.of_nat k - 2) + 2)%N by lia.
-      apply ob_code_high.
-    + apply N.shiftl_spec_low. lia.
-Qed.
-
-Lemma dkey_bit : forall d i j, NoDup (map fst d) -> (j < 2)%N ->
-  N.testbit (dkey d) (2 * N.of_nat i + j) = N.testbit (ob_code (d_get d i)) j.
-Proof.
-  induction d as [|[k v] d IH]; intros i j Hnd Hj.
-  - cbn [dkey d_get ob_code]. rewrite !N.bits_0. reflexivity.
-  - simpl in Hnd. inversion Hnd as [|? ? Hnin Hnd']; subst.
-    simpl dkey. rewrite N.lor_spec, key_field_bit by exact Hj.
-    rewrite (IH i j Hnd' Hj). simpl d_get.
-    destruct (Nat.eqb_spec k i) as [->|Hne].
-    + rewrite (d_get_notin d i Hnin). simpl ob_code at 2. rewrite N.bits_0.
-      apply orb_false_r.
-    + reflexivity.
-Qed.
-
-Lemma space_key_bit : forall S i j, (j < 2)%N ->
-  N.testbit (space_key S) (2 * N.of_nat i + j) = N.testbit (ob_code (nth i S None)) j.
-Proof.
-  induction S as [|o S IH]; intros i j Hj.
-  - unfold space_key. cbn [space_key_from]. destruct i; cbn [nth]; cbn [ob_code];
-      rewrite !N.bits_0; reflexivity.
-  - rewrite space_key_cons, N.lor_spec. destruct i as [|i].
-    + cbn [nth]. replace (2 * N.of_nat 0 + j)%N with j by lia.
-      rewrite N.shiftl_spec_low by exact Hj. apply orb_false_r.
-    + cbn [nth].
-      replace (2 * N.of_nat (Datatypes.S i) + j)%N with ((2 * N.of_nat i + j) + 2)%N by lia.
-      rewrite ob_code_high. cbn [orb].
-      rewrite N.shiftl_spec_high' by lia.
-      replace (2 * N.of_nat i + j + 2 - 2)%N with (2 * N.of_nat i + j)%N by lia.
-      apply IH. exact Hj.
-Qed.
-
-Lemma dkey_space_key : forall n d, wf_dict n d -> dkey d = space_key (to_space n d).
-Proof.
-  intros n d Hd. apply N.bits_inj. intro m.
-  assert (Hm : exists i j, (j < 2)%N /\ m = (2 * N.of_nat i + j)%N).
-  { exists (N.to_nat (m / 2)), (m mod 2)%N. split.
-    - apply N.mod_lt. lia.
-    - rewrite N2Nat.id. apply N.div_mod. lia. }
-  destruct Hm as [i [j [Hj ->]]].
-  rewrite dkey_bit by (exact (proj1 Hd) || exact Hj).
-  rewrite space_key_bit by exact Hj.
-  rewrite to_space_nth_all by exact Hd. reflexivity.
-Qed.
-
-Theorem py_space_unique_key_spec : forall n d, wf_dict n d ->
-  py_space_unique_key d n = Some (space_key (to_space n d)).
-Proof.
-  intros n d Hd.
-  unfold py_space_unique_key, d_items. cbv zeta.
-  match goal with |- context [py_for d ?b (0%N, None)] => set (body := b) end.
-  assert (Hbody : forall k v key var, body (k, v) (key, var) =
-     if Nat.ltb k n then FNext (N.lor key (key_field k v), Some k) else FRaise).
-  { intros k v key var. unfold body, net_find.
-    destruct (Nat.ltb k n); reflexivity. }
-  destruct (key_loop_ok n body Hbody d 0%N None (proj2 Hd)) as [var' Hv].
-  rewrite Hv. cbv beta iota. rewrite N.lor_0_l.
-  rewrite (dkey_space_key n d Hd). reflexivity.
-Qed.
-
-Theorem py_space_unique_key_raises : forall n d, (exists k, In k (map fst d) /\ n <= k) ->
-  py_space_unique_key d n = None.
-Proof.
-  intros n d Hex.
-  unfold py_space_unique_key, d_items. cbv zeta.
-  match goal with |- context [py_for d ?b (0%N, None)] => set (body := b) end.
-  assert (Hbody : forall k v key var, body (k, v) (key, var) =
-     if Nat.ltb k n then FNext (N.lor key (key_field k v), Some k) else FRaise).
-  { intros k v key var. unfold body, net_find.
-    destruct (Nat.ltb k n); reflexivity. }
-  rewrite (key_loop_raise n body Hbody d 0%N None Hex). reflexivity.
-Qed.
-
-(* ------------------------------------------------------------------ *)
-(* petri_net_translation.variable_to_place / place_to_variable         *)
-(* ------------------------------------------------------------------ *)
-
-Theorem py_variable_to_place_spec : forall v b, py_variable_to_place v b = Some (place_name v b).
-Proof. intros v [|]; reflexivity. Qed.
-
-Theorem py_place_to_variable_spec : forall p, py_place_to_variable p = place_to_variable p.
-Proof.
-  intros p. unfold py_place_to_variable.
-  destruct p as [|a [|b [|c p]]].
-  - reflexivity.
-  - simpl. rewrite !andb_false_r.
-    destruct a as [|q]; [reflexivity|].
-    do 7 (try destruct q as [q|q|]; try reflexivity).
-  - simpl. rewrite !andb_false_r. simpl.
-    destruct a as [|q]; [reflexivity|].
-    do 7 (try destruct q as [q|q|]; try reflexivity);
-    destruct b as [|q]; try reflexivity;
-    do 6 (try destruct q as [q|q|]; try reflexivity).
-  - destruct (N.eqb_spec 98 a) as [<-|Ha].
-    + destruct (N.eqb_spec 49 b) as [<-|Hb].
-      * destruct (N.eqb_spec 95 c) as [<-|Hc]; [reflexivity|].
-        simpl. replace (N.eqb 95 c) with false by (symmetry; apply N.eqb_neq; exact Hc).
-        simpl.
-        destruct c as [|q]; [reflexivity|].
-        do 7 (try destruct q as [q|q|]; try reflexivity); try congruence.
-      * destruct (N.eqb_spec 48 b) as [<-|Hb'].
-        -- destruct (N.eqb_spec 95 c) as [<-|Hc]; [reflexivity|].
-           simpl. replace (N.eqb 95 c) with false by (symmetry; apply N.eqb_neq; exact Hc).
-           simpl.
-           destruct c as [|q]; [reflexivity|].
-           do 7 (try destruct q as [q|q|]; try reflexivity); try congruence.
-        -- simpl. replace (N.eqb 49 b) with false by (symmetry; apply N.eqb_neq; exact Hb).
-           replace (N.eqb 48 b) with false by (symmetry; apply N.eqb_neq; exact Hb').
-           simpl.
-           destruct b as [|q]; [reflexivity|].
-           do 6 (try destruct q as [q|q|]; try reflexivity); try congruence.
-    + simpl. replace (N.eqb 98 a) with false by (symmetry; apply N.eqb_neq; exact Ha).
-      simpl.
-      destruct a as [|q]; [reflexivity|].
-      do 7 (try destruct q as [q|q|]; try reflexivity); try congruence.
-Qed.
-
-Print Assumptions to_space_length.
-Print Assumptions to_space_nth.
 Print Assumptions py_is_subspace_spec.
 Print Assumptions py_intersect_spec.
-Print Assumptions py_space_unique_key_spec.
-Print Assumptions py_space_unique_key_raises.
-Print Assumptions py_variable_to_place_spec.
-Print Assumptions py_place_to_variable_spec.
